@@ -60,6 +60,28 @@ def pred_events(case, ctx):
 
 
 @st.composite
+def beat_kw_case(draw):
+    """beat.evaluate with a user-chosen trim time: all beats of both sequences are >= that time before and after the shift"""
+    m = draw(st.sampled_from([0.0, 1.0, 2.0, 2.5, 8.0, 5.0]))
+    ref, est = draw(g.event_pair(q=64, lo=m, hi=m + 12.0, max_n=10))
+    kw = {"min_beat_time": m}
+    if draw(st.booleans()):
+        kw["f_measure_threshold"] = draw(st.sampled_from([0.07, 0.05, 0.125]))
+    if draw(st.booleans()):
+        kw["cemgil_sigma"] = draw(st.sampled_from([0.04, 0.08]))
+    return {"ref": ref, "est": est, "shift": draw(st.sampled_from(SHIFTS)), "kw": kw}
+
+
+def pred_beat_kw(case, ctx):
+    r, e, s, kw = _a(case["ref"]), _a(case["est"]), case["shift"], case["kw"]
+    s1 = ctx.call(beat.evaluate, r, e, **kw)
+    _same("beat.evaluate(%s)" % ", ".join(sorted(kw)), s1, ctx.call(beat.evaluate, r + s, e + s, **kw), case)
+    if kw["min_beat_time"] != 5.0:
+        ctx.event("non_default_trim_time")
+    return len(case["ref"]) + len(case["est"]) >= 3 and s != 0
+
+
+@st.composite
 def notes_case(draw):
     c = draw(gt.notes_case())
     c["shift"] = draw(st.sampled_from(SHIFTS))
@@ -225,6 +247,8 @@ def pred_hier_labels(case, ctx):
 
 SUBPROPS = [
     SubProp("beat_onset_shift", pred_events, strategy=events_case, n=(800, 20000), shards=(2, 8), floor=0.3, rule="time shift; NT = >= 3 events and shift != 0"),
+    SubProp("beat_shift_keywords", pred_beat_kw, strategy=beat_kw_case, n=(400, 10000), shards=(2, 8), floor=0.3,
+            rule="time shift with a user-chosen min_beat_time (0..8 s; beats all >= it) and other beat keywords; NT = >= 3 events and shift != 0"),
     SubProp("transcription_shift_order", pred_notes, strategy=notes_case, n=(800, 20000), shards=(2, 8), floor=0.3, rule="time shift and note permutation; NT = >= 3 notes and a non-identity transformation"),
     SubProp("multipitch_shift_order", pred_multipitch, strategy=multipitch_case, n=(700, 15000), shards=(2, 8), floor=0.3, rule="time shift and frequency order within frames"),
     SubProp("alignment_shift", pred_alignment, strategy=alignment_case, n=(600, 10000), shards=(1, 4), floor=0.2, rule="time shift incl. MIREX PCS"),
